@@ -35,6 +35,18 @@ CLAIMED = {
         text="Optimizer updates inside interleaved histories: parameter lists of 1-6 leaves of mixed shapes, which of them hold a gradient is whatever the preceding schedule produced (frozen ones anywhere), repeated updates, stale-handle reuse; oracle: per-parameter step from the pre-update observation, tracked, gradient cleared, frozen untouched, old handles intact.",
         note="Trusted: the pre-update observation; step tolerance 4 eps (|old|+|lr*g|) so that FMA/reassociation is not flagged.",
         tech=TECH + "per-parameter step oracle from the pre-update observation"),
+    "C12": dict(cat="fault_enumeration", ref="DESIGN.md §6 C12, §5.1",
+        text="A base history (build, flag, pass, read events) and the finite set of lifetime perturbations of it: a fresh clone for any operand use, a drop right after a handle's last named use, re-binding the operand's variable instead of a new one, the pass from a clone of the root, the gradient read through another clone, a handle replaced by a clone of itself mid-life. Quick: seeded single and multiple placements; thorough: every single placement for a subsample of base histories plus seeded combinations. Oracle: every value and gradient observed in the perturbed run is bitwise identical to the base run's; gradients are identical through every live clone after every event.",
+        note="Trusted: the trace transformation (slot renaming for re-binding) and the alignment of observations between base and perturbed run.",
+        tech=TECH + "relational oracle: base run vs lifetime-perturbed replays, bitwise"),
+    "C14": dict(cat="exploration", ref="DESIGN.md §6 C14",
+        text="Training histories on the real Model/Dense/Conv/GradientDescent/cost code (seeded stacks of 1-3 layers, all activations, both costs, batch absent/1/>1 changing between iterations, forward twice, retained old outputs, model torn down and rebuilt around the same layers, observers holding parameter handles) interleaved with other actors' calls. Oracle per iteration: returned loss and parameters after update against old - lr * gradient computed by the dual-number reference from the documented formulas (toleranced), and bitwise against the same iteration on a fresh model restarted from the parameter snapshot (F13), plus no gradient left after update.",
+        note="Trusted: reference formulas for dense/conv/activations/costs (also C15's statement), the Tap layer (public Layer trait) that snapshots parameter handles at every forward; iterations whose ReLU inputs come within 1e-6 of the kink or whose reference is non-finite are not judged absolutely (counted).",
+        tech=TECH + "reference step oracle plus restart-from-snapshot relational oracle per iteration"),
+    "C17": dict(cat="exploration", ref="DESIGN.md §6 C17",
+        text="At passes inside interleaved histories (after other passes, clears, drops, flag toggles) the prefix is forked five times: seeds s1, s2, alpha*s1+beta*s2, none, ones. Deposits must combine linearly (exact on integer data, K*eps*Mag otherwise) and backward(None) must equal backward(ones) bitwise. The relation itself quantifies over inputs; what the simulator adds is the history context in which the root's seed selection reads shared pending state.",
+        note="Trusted: forking by replay of the explicit prefix; magnitude of the adjoint from the reference for the tolerance.",
+        tech=TECH + "relational oracle: five forks of the same prefix with different seeds"),
     "C18": dict(cat="fault_enumeration", ref="DESIGN.md §6 C18",
         text="Retire events (move the leaf out, probe sole ownership with Vec::from under catch_unwind) injected into arbitrary histories at points where the shadow says every derived result is gone, with gradients still stored or held; thorough tier additionally enumerates every drop order of the result handles at quiescence for sampled histories.",
         note="Trusted: the shadow's conservative 'may still be pinned' (dataflow ancestry of every live handle, aliases included).",
@@ -42,9 +54,6 @@ CLAIMED = {
 }
 
 BUILDING = {
-    "C12": "check under construction in this session (relational perturbation oracle); not claimed until it runs",
-    "C14": "check under construction in this session (training-loop histories); not claimed until it runs",
-    "C17": "check under construction in this session (forked seed-linearity oracle); not claimed until it runs",
     "C19": "check under construction in this session (f32 cross-build replay); not claimed until it runs",
 }
 
